@@ -1,12 +1,354 @@
 package main
 
-// Document support of the harness (filled in with the Doc model).
+// Document support of the harness: canonical dump of the marshaled node table, the public
+// Document API on handles (a handle is a Document obtained by navigation and kept across steps,
+// so that calls on deleted or superseded containers are reachable).
 
-func canonDoc(snap []byte) interface{} { return nil }
+import (
+	"encoding/json"
+	"fmt"
 
-func docCall(dt interface{}, m string, a J) (interface{}, uint32) { return nil, 998 }
+	"github.com/orda-io/orda/client/pkg/errors"
+	"github.com/orda-io/orda/client/pkg/model"
+	"github.com/orda-io/orda/client/pkg/orda"
+)
 
-func (g *gen) genDocCall(i int, bad, read bool) (string, J) { return "nop", J{} }
+func canonDoc(snap []byte) interface{} {
+	var s struct {
+		NodeMap []struct {
+			C *model.Timestamp `json:"c"`
+			T string           `json:"t"`
+			P *model.Timestamp `json:"p"`
+			D *model.Timestamp `json:"d"`
+			E interface{}      `json:"e"`
+			A *struct {
+				N [][2]*model.Timestamp `json:"n"`
+				S int                   `json:"s"`
+			} `json:"a"`
+			O *struct {
+				M map[string]*model.Timestamp `json:"m"`
+				S int                         `json:"s"`
+			} `json:"o"`
+		} `json:"nm"`
+	}
+	if err := json.Unmarshal(snap, &s); err != nil {
+		return J{"undecodable": err.Error()}
+	}
+	nodes := make([]interface{}, 0, len(s.NodeMap))
+	for _, n := range s.NodeMap {
+		c := n.C
+		if c == nil {
+			c = &model.Timestamp{}
+		}
+		o := J{"c": tsJ(c), "d": tsJ(n.D), "p": tsJ(n.P), "t": n.T}
+		switch n.T {
+		case "E":
+			o["e"] = n.E
+		case "O":
+			m := J{}
+			sz := 0
+			if n.O != nil {
+				for k, v := range n.O.M {
+					m[k] = tsJ(v)
+				}
+				sz = n.O.S
+			}
+			o["m"] = m
+			o["s"] = sz
+		case "A":
+			sl := make([]interface{}, 0)
+			sz := 0
+			if n.A != nil {
+				for _, p := range n.A.N {
+					cc := p[1]
+					if cc == nil {
+						cc = p[0]
+					}
+					sl = append(sl, []interface{}{tsJ(p[0]), tsJ(cc)})
+				}
+				sz = n.A.S
+			}
+			o["n"] = sl
+			o["s"] = sz
+		}
+		nodes = append(nodes, o)
+	}
+	return J{"nodes": nodes}
+}
 
+func docVal(d orda.Document) interface{} {
+	if d == nil {
+		return nil
+	}
+	b, err := json.Marshal(d.GetValue())
+	if err != nil {
+		return "marshal-error"
+	}
+	var v interface{}
+	_ = json.Unmarshal(b, &v)
+	return v
+}
 
-func replayTrace(path string, out func(cmd, obs J)) {}
+func docVals(ds []orda.Document) interface{} {
+	out := make([]interface{}, 0, len(ds))
+	for _, d := range ds {
+		out = append(out, docVal(d))
+	}
+	return out
+}
+
+// docCall: dt is the Document (or transaction-scoped DocumentInTx) the handle `a["_h"]` resolves from.
+func docCall(dt interface{}, m string, a J) (interface{}, uint32) {
+	d, ok := dt.(orda.DocumentInTx)
+	if !ok {
+		return nil, 998
+	}
+	var err errors.OrdaError
+	var ret interface{}
+	switch m {
+	case "dput":
+		var r orda.Document
+		r, err = d.PutToObject(a["k"].(string), a["v"])
+		ret = docVal(r)
+	case "dremove":
+		var r orda.Document
+		r, err = d.DeleteInObject(a["k"].(string))
+		ret = docVal(r)
+	case "dinsert":
+		_, err = d.InsertToArray(asInt(a["pos"]), toIfaceSlice(a["vs"])...)
+	case "ddelete":
+		var r orda.Document
+		r, err = d.DeleteInArray(asInt(a["pos"]))
+		ret = docVal(r)
+	case "ddeleteMany":
+		var r []orda.Document
+		r, err = d.DeleteManyInArray(asInt(a["pos"]), asInt(a["n"]))
+		ret = docVals(r)
+	case "dupdate":
+		var r []orda.Document
+		r, err = d.UpdateManyInArray(asInt(a["pos"]), toIfaceSlice(a["vs"])...)
+		ret = docVals(r)
+	case "dgetObj":
+		var r orda.Document
+		r, err = d.GetFromObject(a["k"].(string))
+		ret = docVal(r)
+	case "dgetArr":
+		var r []orda.Document
+		r, err = d.GetManyFromArray(asInt(a["pos"]), asInt(a["n"]))
+		ret = docVals(r)
+	case "dvalue":
+		b, _ := json.Marshal(d.GetValue())
+		_ = json.Unmarshal(b, &ret)
+	default:
+		return nil, 998
+	}
+	if err != nil {
+		return nil, errCode(err)
+	}
+	return ret, 0
+}
+
+// handle resolution -------------------------------------------------------------------------
+
+func (r *rep) handle(name string) orda.Document {
+	if r.handles == nil {
+		r.handles = map[string]orda.Document{}
+	}
+	if name == "" || name == "root" {
+		if d, ok := r.dt.(orda.Document); ok {
+			return d
+		}
+		return nil
+	}
+	return r.handles[name]
+}
+
+func (w *world) stepNav(i int, from string, key interface{}, pos int, to string) (J, J, bool) {
+	cmd := J{"k": "nav", "r": i, "from": from, "to": to}
+	if key != nil {
+		cmd["key"] = key
+	} else {
+		cmd["pos"] = pos
+	}
+	r := w.reps[i]
+	obs := J{}
+	hung := guarded(obs, func() {
+		h := r.handle(from)
+		var child orda.Document
+		var err errors.OrdaError
+		if key != nil {
+			child, err = h.GetFromObject(key.(string))
+		} else {
+			child, err = h.GetFromArray(pos)
+		}
+		obs["err"] = errCode(err)
+		if err == nil && child != nil {
+			if child.GetTypeOfJSON() != orda.TypeJSONElement { // element handles are not kept (superseded elements leave the node table)
+				r.handles[to] = child
+			}
+			obs["kind"] = map[orda.TypeOfJSON]string{orda.TypeJSONElement: "E", orda.TypeJSONObject: "O", orda.TypeJSONArray: "A"}[child.GetTypeOfJSON()]
+			obs["value"] = docVal(child)
+		} else {
+			obs["kind"] = nil
+			obs["value"] = nil
+		}
+	})
+	if _, ok := obs["err"]; !ok {
+		obs["err"] = 0
+	}
+	return cmd, obs, hung
+}
+
+// generation ---------------------------------------------------------------------------------
+
+func (g *gen) docValue(depth int, bad bool) interface{} {
+	if bad && g.r.intn(2) == 0 {
+		return nil
+	}
+	switch k := g.r.intn(10); {
+	case k < 3:
+		g.tag++
+		return fmt.Sprintf("v%d", g.tag)
+	case k < 5:
+		return float64(g.r.intn(100))
+	case k < 6:
+		return g.r.intn(2) == 0
+	case k < 8 && depth < 3:
+		n := g.r.intn(4)
+		o := J{}
+		for i := 0; i < n; i++ {
+			o[g.r.pick(mapKeys)] = g.docValue(depth+1, bad)
+		}
+		return o
+	case depth < 3:
+		n := g.r.intn(4)
+		a := make([]interface{}, 0, n)
+		for i := 0; i < n; i++ {
+			a = append(a, g.docValue(depth+1, bad))
+		}
+		return a
+	}
+	return float64(g.r.intn(10))
+}
+
+// pickHandle returns a handle name of replica i and the kind/size the harness believes it has.
+func (g *gen) pickHandle(i int) (string, orda.Document) {
+	r := g.w.reps[i]
+	names := []string{"root"}
+	for n := range r.handles {
+		names = append(names, n)
+	}
+	// deterministic order
+	for a := 1; a < len(names); a++ {
+		for b := a; b > 1 && names[b] < names[b-1]; b-- {
+			names[b], names[b-1] = names[b-1], names[b]
+		}
+	}
+	n := names[g.r.intn(len(names))]
+	return n, r.handle(n)
+}
+
+func (g *gen) genDocCall(i int, bad, read, inTx bool) (string, J) {
+	name, h := g.pickHandle(i)
+	if inTx {
+		name, h = "root", g.w.reps[i].handle("root")
+	}
+	a := J{}
+	m := "dvalue"
+	kind := orda.TypeJSONObject
+	size := 0
+	func() {
+		defer func() { _ = recover() }()
+		kind = h.GetTypeOfJSON()
+		if kind == orda.TypeJSONArray {
+			if arr, ok := h.GetValue().([]interface{}); ok {
+				size = len(arr)
+			}
+		}
+	}()
+	wrongKind := bad && g.r.intn(4) == 0
+	asObj := (kind == orda.TypeJSONObject) != wrongKind
+	if kind == orda.TypeJSONElement {
+		if !bad && g.r.intn(4) != 0 { // mostly leave element handles alone: every write on them is refused
+			name, h = "root", g.w.reps[i].handle("root")
+			kind = orda.TypeJSONObject
+			asObj = true
+		} else {
+			asObj = g.r.intn(2) == 0
+		}
+	}
+	if read {
+		switch {
+		case g.r.intn(3) == 0:
+			m = "dvalue"
+		case asObj:
+			m, a = "dgetObj", J{"k": g.r.pick(mapKeys)}
+		default:
+			p, n := g.rangeOf(size, bad)
+			m, a = "dgetArr", J{"pos": p, "n": n}
+		}
+	} else if asObj {
+		k := g.r.pick(mapKeys)
+		if g.r.intn(10) < 7 {
+			m, a = "dput", J{"k": k, "v": g.docValue(0, bad)}
+		} else {
+			m, a = "dremove", J{"k": k}
+		}
+	} else {
+		switch x := g.r.intn(10); {
+		case x < 5 || size == 0 && !bad:
+			n := g.batch()
+			if n > 3 && !g.r.chance(0.3) {
+				n = 1 + g.r.intn(3)
+			}
+			vs := make([]interface{}, 0, n)
+			for j := 0; j < n; j++ {
+				vs = append(vs, g.docValue(1, bad))
+			}
+			m, a = "dinsert", J{"pos": g.pos(size, bad && g.r.intn(2) == 0, true), "vs": vs}
+		case x < 7:
+			m, a = "ddelete", J{"pos": g.pos(size, bad, false)}
+		case x < 8:
+			p, n := g.rangeOf(size, bad)
+			m, a = "ddeleteMany", J{"pos": p, "n": n}
+		default:
+			p, n := g.rangeOf(size, bad)
+			if n < 0 {
+				n = 0
+			}
+			vs := make([]interface{}, 0, n)
+			for j := 0; j < n; j++ {
+				vs = append(vs, g.docValue(1, bad))
+			}
+			m, a = "dupdate", J{"pos": p, "vs": vs}
+		}
+	}
+	a["_h"] = name
+	return m, a
+}
+
+// genNav: occasionally bind a new handle by navigating from an existing one.
+func (g *gen) genNav(i int) (string, interface{}, int, string) {
+	name, h := g.pickHandle(i)
+	g.tag++
+	to := fmt.Sprintf("h%d", g.tag)
+	kind := orda.TypeJSONObject
+	size := 0
+	func() {
+		defer func() { _ = recover() }()
+		kind = h.GetTypeOfJSON()
+		if arr, ok := h.GetValue().([]interface{}); ok {
+			size = len(arr)
+		}
+	}()
+	if kind == orda.TypeJSONArray {
+		p := 0
+		if size > 0 {
+			p = g.r.intn(size)
+		}
+		return name, nil, p, to
+	}
+	return name, g.r.pick(mapKeys), 0, to
+}
+
+func replayTrace(path string, out func(cmd, obs J)) { replayImpl(path, out) }
